@@ -1,23 +1,27 @@
 """C17 -- timer values stay within protocol bounds whatever the cache sends."""
 from engine import core
 from .common import PKT_SOURCES, PKT_STUBS
-from .sync_common import sync_job
+from .fsm_common import fsm_job
+from .sync_common import *
 
 INFO = {"outside": "wip", "assumptions": []}
 MANIFEST = {"text": "wip", "note": "wip"}
 
 
 def jobs(tier):
+    B = 6 if tier == "quick" else 10
     J = [
         core.Job(name="rtr_init_intervals", harness="rtr_init_unit.c", entry="harness", unwind=4, timeout=300,
-                 sources=["rtrlib/rtr/rtr.c", "rtrlib/rtr/packets.c"],
+                 sources=["rtrlib/rtr/rtr.c", "rtrlib/rtr/packets.c", "/verif/lib/log_stub.c"],
                  desc="rtr_init with arbitrary 32-bit refresh/expire/retry and mode", bounds={"values": "full 32 bit"},
-                 stubs=["none"]),
+                 stubs=["lrtr_dbg: empty"]),
         core.Job(name="wait_for_sync", harness="rtr_wait_unit.c", entry="harness", unwind=4, timeout=300,
                  sources=PKT_SOURCES, replace_calls=[("rtr_receive_pdu", "stub_receive_pdu")],
-                 defines=["RTRLIB_VERIF_MAX_PDU_LEN=160"],
+                 defines=["RTRLIB_VERIF_MAX_PDU_LEN=160"], native_replay=False,
                  desc="rtr_wait_for_sync with symbolic clock, last_update, refresh interval and receive outcome",
                  bounds={"values": "full 32 bit"}, stubs=["rtr_receive_pdu: contract stub recording the timeout", "clock: symbolic"]),
-        sync_job("eod_intervals_k0", "ASSERT_C17", 0, timeout=600),
+        fsm_job("fsm_poll_b%d" % B, "ASSERT_C17", B, extra=["EOD_INTERVALS"], timeout=1800),
     ]
+    for sk in [[CR, EOD], [SN, CR, EOD], [CR, V4, EOD], [CR, KEY, EOD]] + (fam_complete(tier)[4:] if tier == "thorough" else []):
+        J.append(sync_job("ASSERT_C17", sk, extra=["NO_TABLE_FAIL"] if len(sk) >= 6 else None, timeout=2400 if len(sk) >= 6 else 900))
     return J
